@@ -3,6 +3,7 @@ import MocModel.Drv.Mw
 import MocModel.Drv.Prom
 import MocModel.Drv.Http
 import MocModel.Drv.Cache
+import MocModel.Drv.Handlers
 open Moc.Drv
 
 def handlers : List (String × Handler) := [
@@ -11,7 +12,8 @@ def handlers : List (String × Handler) := [
   ("C18", MwD.handler),
   ("C19", PromD.handler),
   ("C20", HttpD.handler),
-  ("cache", CacheD.handler)
+  ("cache", CacheD.handler),
+  ("C16", HandlersD.handler)
 ]
 
 def main (args : List String) : IO UInt32 := do
